@@ -393,6 +393,8 @@ package core
 //@   property C03
 //@   requires core != nil && core.catalog != nil && directive.dirOK(d) && bodyOK(d)
 //@   modifies anything
+//@   keeps directive.Directive, fs.File
+//@   ensures[C03,C07,@error-in-directive-file] imp(result != nil, errIn(result, d))
 //@   ensures[C03,@setter-error-reported] imp(core.catalog == old(core.catalog) && core.catalog.gFailed > old(core.catalog.gFailed), result != nil)
 //@   ensures[C03,@forbidden-annotation] imp(old(d.Annotation) != "", result != nil)
 
@@ -528,3 +530,59 @@ package core
 //@   ensures[C03,@setter-error-reported] imp(setterFailed(core, old(core.catalog), old(core.catalog.gFailed)), result != nil)
 //@   ensures[C03,@missing-parameter] imp(old(!hasParam(d, "MethodName")), atKeyword(result, d))
 //@   ensures[C03,C07,@error-in-directive-file] imp(result != nil, errIn(result, d))
+
+//@ func (*JApiCore).addInfo(core, d)
+//@   property C03
+//@   attr assumesafe
+//@   requires handlerPre(core, d)
+//@   modifies anything
+//@   keeps directive.Directive, fs.File
+//@   ensures[C03,@setter-error-reported] imp(setterFailed(core, old(core.catalog), old(core.catalog.gFailed)), result != nil)
+//@   ensures[C03,@forbidden-annotation] imp(d.Annotation != "", atKeyword(result, d))
+//@   ensures[C03,@info-repeated] imp(old(core.catalog.Info) != nil, atKeyword(result, d))
+//@   ensures[C03,C07,@error-at-directive] imp(result != nil, atKeyword(result, d))
+
+//@ func checkJsonRpcUrlChildCompatible(d)
+//@   attr trusted
+//@   modifies nothing
+//@   ensures imp(result != nil, result.File != nil)
+//@ func (*JApiCore).addURL(core, d)
+//@   property C03
+//@   attr assumesafe
+//@   requires handlerPre(core, d) && core.uniqURLPath != nil
+//@   modifies anything
+//@   keeps directive.Directive, fs.File
+//@   ensures[C03,@forbidden-annotation] imp(d.Annotation != "", atKeyword(result, d))
+
+// Body dispatches on its parent; a parameter on the parent is reported at the parent (the construct at fault)
+//@ func (*JApiCore).addBody(core, d)
+//@   property C03
+//@   attr assumesafe
+//@   requires handlerPre(core, d) && d.Parent != nil && directive.dirOK(d.Parent)
+//@   modifies anything
+//@   keeps directive.Directive, fs.File
+//@   ensures[C03,@setter-error-reported] imp(setterFailed(core, old(core.catalog), old(core.catalog.gFailed)), result != nil)
+//@   ensures[C03,C07,@error-in-directive-file] imp(result != nil, errIn(result, d) || atKeyword(result, d.Parent))
+
+//@ func (*JApiCore).addJsonRpcParams(core, d)
+//@   property C03
+//@   attr assumesafe
+//@   requires handlerPre(core, d)
+//@   modifies anything
+//@   keeps directive.Directive, fs.File
+//@   ensures[C03,@setter-error-reported] imp(setterFailed(core, old(core.catalog), old(core.catalog.gFailed)), result != nil)
+//@   ensures[C03,@forbidden-annotation] imp(d.Annotation != "", atKeyword(result, d))
+//@   ensures[C03,@empty-body] imp(d.BodyCoords.file == nil, atKeyword(result, d))
+//@   ensures[C03,C07,@error-at-directive] imp(result != nil, errAt(result, d))
+
+//@ func (*JApiCore).addJsonRpcResult(core, d)
+//@   property C03
+//@   attr assumesafe
+//@   requires handlerPre(core, d)
+//@   modifies anything
+//@   keeps directive.Directive, fs.File
+//@   ensures[C03,@setter-error-reported] imp(setterFailed(core, old(core.catalog), old(core.catalog.gFailed)), result != nil)
+//@   ensures[C03,@forbidden-annotation] imp(d.Annotation != "", atKeyword(result, d))
+//@   ensures[C03,@empty-body] imp(d.BodyCoords.file == nil, atKeyword(result, d))
+//@   ensures[C03,C07,@error-at-directive] imp(result != nil, errAt(result, d))
+
